@@ -438,7 +438,11 @@ class Input(object):
                 n_tag = self.redeemscript[0:1]
                 if not isinstance(n_tag, int):
                     n_tag = int.from_bytes(n_tag, 'big')
-                self.sigs_required = n_tag - 80
+                if n_tag == 1 and len(self.redeemscript) > 1:
+                    # There is no opcode for a number above 16: such a threshold is pushed as one byte of data
+                    self.sigs_required = self.redeemscript[1]
+                else:
+                    self.sigs_required = n_tag - 80
                 signatures = [s.as_der_encoded() for s in self.signatures[:self.sigs_required]]
                 if b'' in signatures:
                     raise TransactionError("Empty signature found in signature list when signing. "
